@@ -330,6 +330,12 @@ static int lengths_for(struct shape sh, int thorough, uint64_t *out, int *big_fr
 }
 
 /* ------------------------------------------------------------------ plans C01 / C02 / C03 */
+static int shapes_null(struct shape *out)
+{
+    static const int km[][2] = { {1,1}, {2,1}, {4,2}, {10,4}, {3,5} }; int c = 0;
+    for (int i = 0; i < 5; i++) { out[c].be = EC_BACKEND_NULL; out[c].k = km[i][0]; out[c].m = km[i][1]; out[c].hd = km[i][1]; out[c].wv = 0; c++; }
+    return c;
+}
 static void collect_shapes(struct shape **out, int *n, int with_rs, int with_xor, int with_isa)
 {
     struct shape *sh = malloc(sizeof(struct shape) * 2000); int c = 0;
@@ -577,6 +583,7 @@ static void plan_c07(void)
         vh_group_end();
     }
     struct shape *sh; int ns; collect_shapes(&sh, &ns, 1, 1, 1);
+    ns += shapes_null(sh + ns);       /* the null back end writes the same wire format (its parity payloads stay zero) */
     for (int i = 0; i < ns; i++) {
         uint64_t L[16]; int bf; int nl = lengths_for(sh[i], thorough, L, &bf);
         for (int li = 0; li < nl; li++) for (int ct = CHKSUM_NONE; ct <= CHKSUM_CRC32; ct++) for (int e = 0; e < 2; e++) {
@@ -763,7 +770,8 @@ static void plan_c08(void)
 {
     int thorough = !strcmp(vh_tier(), "thorough");
     struct shape *sh; int ns; collect_shapes(&sh, &ns, 1, 1, 1);
-    /* every shape, plus (rs_vand, flat_xor_hd) the same shape created with caller-supplied word sizes the backend ignores */
+    ns += shapes_null(sh + ns);
+    /* every shape, plus (rs_vand, flat_xor_hd, null) the same shape created with caller-supplied word sizes the backend ignores */
     int nbase = ns; sh = realloc(sh, sizeof(struct shape) * (size_t)ns * 5);
     for (int i = 0; i < nbase; i++) { int wv[4]; int nw = w_variants(sh[i].be, wv); for (int q = 0; q < nw; q++) { sh[ns] = sh[i]; sh[ns].wv = wv[q]; ns++; } }
     for (int i = 0; i < ns; i++) {
